@@ -9,8 +9,15 @@
    go
    ->  ok <id> ssa=<0|1>     |  fail <id> ssa=<0|1> <rule> <details> [; <rule> <details>]...
    tbl                                           -> table line about the regenerated builtin table (T5)
+
+   memory rows (Model/IntraMem.lean), optional, before `go`:
+   ms <loc> <addr> <vals|->                      store row (Store / MapUpdate / Send / select-send / container of the address)
+   ml <loc> <addr> <res>                         load row
+   ma <addr> <b1,b2,...|->                       values the REAL pointer analysis says may alias <addr>
+   -> a SECOND answer line per function:
+      mem <id> none|ok|fail stores=<n> loads=<n> aliases=<n> exempt=<k> [<rule> <details> ; ...]
 -/
-import Argot.Model.Intra
+import Argot.Model.IntraMem
 import Argot.Gen.T5Builtins
 open Argot.Intra Argot.BuiltinTable Argot.Gen
 
@@ -44,6 +51,9 @@ structure PAcc where
   targets : Array Target := #[]
   state : Array (Nat × List Fact) := #[]
   edges : Array Edge := #[]
+  stores : Array StoreRow := #[]
+  loads : Array LoadRow := #[]
+  al : Array (Nat × List Nat) := #[]
   bad : Option String := none
 
 /-! diagnostics: re-run the rules and name the first offenders (not part of the model) -/
@@ -95,6 +105,37 @@ def answer (acc : PAcc) : String :=
   if closed f S E R then s!"ok {acc.id} ssa={ssa}"
   else s!"fail {acc.id} ssa={ssa} " ++ " ; ".intercalate (diag f S E R)
 
+/-- diagnostics for the memory rows (not part of the model). -/
+def diagMem (f : Func) (M : Mem) (S : State) : List String := Id.run do
+  let mut out : List String := []
+  for r in M.stores do
+    for d in r.vals do
+      if !subsetS (· < ·) (marksOf (S r.loc) d) (marksOf (S r.loc) r.addr) then
+        let miss := (marksOf (S r.loc) d).filter fun m => !has S r.loc r.addr m
+        out := out ++ [s!"mstore at={r.loc} addr={r.addr} val={d} mark={miss.headD 0}"]
+    let ms := (marksOf (S r.loc) r.addr).filter fun m => !selfInit f r.addr m
+    for b in M.aliases r.addr do
+      if !subsetS (· < ·) ms (marksOf (S r.loc) b) then
+        let miss := ms.filter fun m => !has S r.loc b m
+        out := out ++ [s!"malias at={r.loc} addr={r.addr} alias={b} mark={miss.headD 0}"]
+  for r in M.loads do
+    if !subsetS (· < ·) (marksOf (S r.loc) r.addr) (marksOf (S r.loc) r.res) then
+      let miss := (marksOf (S r.loc) r.addr).filter fun m => !has S r.loc r.res m
+      out := out ++ [s!"mload at={r.loc} addr={r.addr} res={r.res} mark={miss.headD 0}"]
+  return out.take 50
+
+def answerMem (acc : PAcc) : String :=
+  let f : Func := { instrs := acc.instrs, origins := acc.origins.toList, targets := acc.targets.toList }
+  let M : Mem := { stores := acc.stores.toList, loads := acc.loads.toList, al := acc.al.toList }
+  let n := f.instrs.size
+  let sarr : Array (List Fact) := acc.state.foldl (fun a (i, l) => a.setIfInBounds i l) (Array.replicate n [])
+  let S : State := fun i => sarr.getD i []
+  let na := M.stores.foldl (fun k r => k + (M.aliases r.addr).length - 1) 0
+  let cnt := s!"stores={M.stores.length} loads={M.loads.length} aliases={na} exempt={exemptCount f M S}"
+  if M.stores.isEmpty && M.loads.isEmpty then s!"mem {acc.id} none {cnt}"
+  else if closedMem f M S then s!"mem {acc.id} ok {cnt}"
+  else s!"mem {acc.id} fail {cnt} " ++ " ; ".intercalate (diagMem f M S)
+
 partial def loop (h : IO.FS.Stream) (acc : PAcc) : IO Unit := do
   let line ← h.getLine
   if line.isEmpty then return ()
@@ -127,10 +168,22 @@ partial def loop (h : IO.FS.Stream) (acc : PAcc) : IO Unit := do
     match a.toNat?, b.toNat?, c.toNat? with
     | some a, some b, some c => loop h { acc with edges := acc.edges.push (a, b, c) }
     | _, _, _ => loop h (badl acc)
+  | ["ms", l, a, vs] =>
+    match l.toNat?, a.toNat?, parseNats vs with
+    | some l, some a, some vs => loop h { acc with stores := acc.stores.push ⟨l, a, vs⟩ }
+    | _, _, _ => loop h (badl acc)
+  | ["ml", l, a, r] =>
+    match l.toNat?, a.toNat?, r.toNat? with
+    | some l, some a, some r => loop h { acc with loads := acc.loads.push ⟨l, a, r⟩ }
+    | _, _, _ => loop h (badl acc)
+  | ["ma", a, bs] =>
+    match a.toNat?, parseNats bs with
+    | some a, some bs => loop h { acc with al := acc.al.push (a, bs) }
+    | _, _ => loop h (badl acc)
   | ["go"] =>
     match acc.bad with
-    | some l => IO.println s!"bad-record {acc.id} {l}"
-    | none => IO.println (answer acc)
+    | some l => IO.println s!"bad-record {acc.id} {l}"; IO.println s!"mem {acc.id} none bad-record"
+    | none => IO.println (answer acc); IO.println (answerMem acc)
     (← IO.getStdout).flush
     loop h {}
   | ["tbl"] =>
